@@ -21,6 +21,8 @@ Decided statically (DESIGN.md section 5, C20):
   R-C20-6  the 64-bit counter value reaches the log through an integer insertion (no conversion to a floating type).
   R-C20-7  the name pointers stored in events point into address-stable string storage.
   R-C20-8  the utilisation divisor is a wall-clock interval at clock resolution (not truncated to whole ticks) or guarded.
+  R-C20-9  no tracing function called while threadTraceMutex is held locks it again.
+  R-C20-10 the log file is opened in a truncating mode.
 Not decided: equality of decoded pixel values (run-time contents), JSON escaping of user supplied names,
 nesting of begin/end pairs in the recorded history, what fopen/fwrite/ofstream do.
 """
@@ -218,7 +220,7 @@ class ImgFn:
         else:
             return None
         ka, kb = sorted((a, b), key=lambda p_: repr(p_.key()))
-        atom = ('min', ka.key(), kb.key())
+        atom = ('min', show(ka), show(kb))
         self.mins[atom] = (ka, kb)
         return Poly.atom(atom)
 
@@ -629,6 +631,19 @@ def check_write_image(ctx, tu, f):
                 raise Undecided('strided loop without a span loop inside it')
             return {'y': ('sym', loops[y]['name']), 'v': None, 'x': ('sym', loops[x]['name']), 'c': ('sym', loops[c]['name']),
                     'ycount': loops[y]['count'], 'xcount': loops[x]['count'], 'ccount': loops[c]['count'], 'span': None}
+        if len(stack) == 4 and span_of(stack[1], stack[2]) is None and loops[stack[0]].get('step', 1) > 1:
+            # rows handled in groups: for (g = 0; g < sizeY; g += S) for (r = 0; r < rows in this group; r++)
+            gq, r, x, c = stack
+            if any(loops[v].get('step', 1) != 1 for v in (r, x, c)) or loops[r]['count'] is None:
+                raise Undecided('row groups whose inner loops are not unit-step')
+            S_ = loops[gq]['step']
+            sp = span_of(gq, r)
+            improper = sp is None and loops[r]['count'] == Poly.const(S_)
+            if sp is None and not improper:
+                raise Undecided('row groups whose row count per group is neither min(bound - g, S) nor S')
+            return {'y': ('sym', loops[r]['name']), 'v': None, 'x': ('sym', loops[x]['name']), 'c': ('sym', loops[c]['name']),
+                    'ycount': loops[gq]['bound'], 'xcount': loops[x]['count'], 'ccount': loops[c]['count'], 'span': None,
+                    'g': ('sym', loops[gq]['name']), 'gid': gq, 'rspan': sp, 'improper': improper, 'gstep': S_}
         if len(stack) == 4:
             y, v, x, c = stack
             sp = span_of(v, x)
@@ -731,6 +746,27 @@ def check_write_image(ctx, tu, f):
             continue
         ya, va, xa, ca = nest['y'], nest['v'], nest['x'], nest['c']
         ycount, xcount, ccount = nest['ycount'], nest['xcount'], nest['ccount']
+        if nest.get('g') is not None:
+            cg_, cr_ = total.coeff(nest['g']), total.coeff(ya)
+            if cg_ is None or cr_ is None:
+                ctx.undecided(R, inst, 'source index `%s` is not linear in the row-group variables' % show(total), tu.loc(n))
+                good = False
+                continue
+            if cg_[0] != cr_[0]:
+                ctx.violation(R, inst, 'source index `%s`: the start of a row group and the row inside the group move the source by '
+                              'different amounts (%s vs %s components): rows are taken from the wrong place'
+                              % (show(total), show(cg_[0]), show(cr_[0])), tu.loc(n), key=keyb + 'row-stride')
+                good = False
+                continue
+            if nest['improper']:
+                S_ = nest['gstep']
+                ctx.violation(R, inst, 'rows are converted in groups of %d: the source row is %s + %s for %s in [0, %d) in every group, '
+                              'also in the last one, which has only min(%d, sizeY - %s) rows: for sizeY not a multiple of %d rows up '
+                              'to sizeY + %d are read, beyond the image (e.g. sizeY = 1)'
+                              % (S_, nest['g'][1], ya[1], ya[1], S_, S_, nest['g'][1], S_, S_ - 2), tu.loc(n), key=keyb + 'row-range')
+                good = False
+                continue
+            total = total.subst(nest['g'], Poly.const(0))
         if va is not None:
             # strip-mined column loop: logical column = v + x; both must advance the source by one pixel
             cv_ = total.coeff(va)
@@ -851,6 +887,12 @@ def check_write_image(ctx, tu, f):
         ctx.undecided(R, inst, 'store into the row buffer: %s' % u, tu.loc(n))
         return
     span = nest['span']
+    rows_buf = 1
+    if nest.get('g') is not None:
+        if nest['improper']:
+            return          # reported with the reads
+        rows_buf = nest['gstep']
+        want_bytes = want_bytes * rows_buf          # the staging buffer holds a whole group of rows
     if span is None:
         # the buffer(s) the row is staged in, each with the condition under which it is used
         alt = img.alts.get('@' + vd.get('name', 'buf'))
@@ -875,6 +917,9 @@ def check_write_image(ctx, tu, f):
                               tu.fn_loc(f), key=keyb + 'row-buffer-size')
             good = False
         per_flush = want_bytes
+        if nest.get('g') is not None:
+            want_bytes = sx * (N * csz)
+            per_flush = Poly.atom(nest['rspan']) * want_bytes       # the rows of this group
         flush_depth = 1
         xlimit = sx
     else:
@@ -889,6 +934,8 @@ def check_write_image(ctx, tu, f):
         xlimit = Poly.const(S)
     xa, ca = nest['x'], nest['c']
     want_ix = Poly.atom(xa) * N + Poly.atom(ca)
+    if nest.get('g') is not None:
+        want_ix = want_ix + Poly.atom(nest['y']) * sx * N          # row r of the group
     try:
         out_ix = resolve_carry(bp[2] + ix)
     except Undecided as u:
@@ -2508,6 +2555,191 @@ def check_utilization_divisor(ctx, tu):
         ctx.undecided(R, inst, 'no division by a time interval recognised', tu.fn_loc(f))
 
 
+def check_lock_reentry(ctx, tu):
+    """R-C20-9: threadTraceMutex is a plain std::mutex: while a function holds it, nothing it calls may lock it again"""
+    R = 'R-C20-9'
+    ctx.describe(R, 'no function of the tracing unit that holds threadTraceMutex calls (directly or through other tracing functions) '
+                 'a function that locks it again: the mutex is not recursive, the second lock never returns')
+    lockers = {}
+    for f in tu.functions.values():
+        if not f['q'].startswith(TR) or tu.body(f) is None:
+            continue
+        for x in tu.walk(tu.body(f)):
+            if x.get('kind') == 'VarDecl' and re.search(r'std::(lock_guard|unique_lock|scoped_lock)<', x.get('type', {}).get('qualType', '')) \
+                    and any(y.get('kind') == 'MemberExpr' and y.get('name') == 'threadTraceMutex' for y in tu.walk(x)):
+                lockers[f['id']] = (f, x)
+            if x.get('kind') == 'CXXMemberCallExpr' and tu.sd(x).get('q', '').endswith('::lock') and \
+                    any(y.get('kind') == 'MemberExpr' and y.get('name') == 'threadTraceMutex' for y in tu.walk(x)):
+                lockers[f['id']] = (f, x)
+    if not lockers:
+        ctx.broken('%s: no function locks threadTraceMutex' % R)
+        return
+
+    def callees(fn):
+        out = []
+        for x in tu.walk(tu.body(fn)):
+            if x.get('kind') in ('CallExpr', 'CXXMemberCallExpr'):
+                cf = tu.callee_fn(x)
+                if cf is not None and cf['q'].startswith(TR) and tu.body(cf) is not None:
+                    out.append((x, cf))
+        return out
+
+    def reaches_locker(fn, seen, chain):
+        if fn['id'] in lockers:
+            return chain + [fn['q'].replace(TR, '')]
+        if fn['id'] in seen or len(chain) > 6:
+            return None
+        seen.add(fn['id'])
+        for x, cf in callees(fn):
+            r = reaches_locker(cf, seen, chain + [fn['q'].replace(TR, '')])
+            if r:
+                return r
+        return None
+
+    n = 0
+    for fid, (f, lockdecl) in sorted(lockers.items(), key=lambda kv: kv[1][0]['q']):
+        n += 1
+        inst = '%s holds threadTraceMutex' % f['q'].replace(TR, '')
+        g = tu.cfg(f)
+        bad = None
+        order = [x.get('id') for x in tu.walk(tu.body(f))]
+        lpos = order.index(lockdecl['id']) if lockdecl['id'] in order else -1
+        for x, cf in callees(f):
+            if x['id'] in order and order.index(x['id']) < lpos:
+                continue          # called before the lock is taken
+            chain = reaches_locker(cf, set(), [])
+            if chain:
+                bad = (x, chain)
+                break
+        if bad:
+            x, chain = bad
+            ctx.violation(R, inst, '`%s` is called while threadTraceMutex is held and leads to %s, which locks the same (non-recursive) '
+                          'mutex again: the call never returns (e.g. when the saving thread has no event list yet)'
+                          % (tu.show(x), ' -> '.join(chain)), tu.loc(x),
+                          key='%s|%s|%s|lock-reentered' % (R, tu.fn_file(f), f['q'].replace(TR, '')))
+        else:
+            ctx.ok(R, inst, 'none of the tracing functions called under the lock takes it again', tu.fn_loc(f))
+    ctx.floor(R, n, 2, 'getThreadTraceList and saveLog')
+
+
+def check_log_file_open(ctx, tu):
+    """R-C20-10: saveLog replaces the log file: the file is opened in a mode that discards previous contents"""
+    R = 'R-C20-10'
+    ctx.describe(R, 'the log file is opened so that earlier contents are discarded (ofstream in its default / trunc mode, fopen "w", '
+                 'open with O_TRUNC): a shorter log written over a longer one must not keep the old tail')
+    fs = [f for f in tu.fns(q=TR + 'TraceRecorder::saveLog', dep=False) if tu.cfg(f) is not None]
+    if not fs:
+        ctx.broken('%s: anchor TraceRecorder::saveLog not found' % R)
+        return
+    f = fs[0]
+    inst = 'TraceRecorder::saveLog log file'
+    key = '%s|%s|TraceRecorder::saveLog|' % (R, tu.fn_file(f))
+    path_param = f['params'][0]['id'] if f.get('params') else None
+    opens = []
+
+    def is_log_path(a, env, depth=0):
+        x_ = tu.strip(a, casts=True)
+        if x_ is None or depth > 6:
+            return False
+        for y in tu.walk(x_):
+            if y.get('kind') == 'DeclRefExpr':
+                did = y.get('referencedDecl', {}).get('id')
+                if did == path_param:
+                    return True
+                if did in env and is_log_path(env[did][0], env[did][1], depth + 1):
+                    return True
+        return False
+
+    class _Opens(list):
+        def append(self, item, _env=None):
+            list.append(self, item)
+
+    fns, seen = [(f, {})], set()
+    while fns:
+        fn, env = fns.pop()
+        if fn['id'] in seen:
+            continue
+        seen.add(fn['id'])
+        n_before = len(opens)
+        for x in tu.walk(tu.body(fn)):
+            k = x.get('kind')
+            # the path operand of the constructs below must be the file name given to saveLog
+            patharg = None
+            if k == 'VarDecl' and tu.kids(x):
+                c_ = tu.strip(tu.kids(x)[0])
+                a_ = tu.call_parts(c_)[2] if c_ is not None and c_.get('kind') == 'CXXConstructExpr' else []
+                patharg = a_[0] if a_ else None
+            elif k in ('CallExpr', 'CXXMemberCallExpr') and tu.call_parts(x)[2]:
+                patharg = tu.call_parts(x)[2][1] if tu.sd(x).get('q') == 'openat' and len(tu.call_parts(x)[2]) > 1 else tu.call_parts(x)[2][0]
+            if k in ('CallExpr', 'CXXMemberCallExpr'):
+                cf_ = tu.callee_fn(x)
+                if cf_ is not None and cf_['q'].startswith(TR) and tu.body(cf_) is not None and len(seen) < 30:
+                    env2 = dict(env)
+                    for p_, a2 in zip(cf_.get('params', []), tu.call_parts(x)[2]):
+                        env2[p_['id']] = (a2, env)
+                    fns.append((cf_, env2))
+            if patharg is None or not is_log_path(patharg, env):
+                continue
+            if k == 'VarDecl' and re.search(r'\bofstream\b|basic_ofstream|\bfstream\b|basic_fstream', x.get('type', {}).get('qualType', '')) and tu.kids(x):
+                c = tu.strip(tu.kids(x)[0])
+                args = [a for a in tu.call_parts(c)[2]] if c is not None and c.get('kind') == 'CXXConstructExpr' else []
+                if args:
+                    mode = None
+                    if len(args) >= 2 and args[1].get('kind') != 'CXXDefaultArgExpr':
+                        cv = tu.sd(tu.strip(args[1])).get('cv')
+                        mode = int(cv) if cv is not None else 'unknown'
+                    opens.append(('ofstream', x, mode))
+            if k == 'CXXMemberCallExpr' and tu.sd(x).get('q', '').split('::')[-1] == 'open' and \
+                    re.search(r'basic_(o)?fstream', tu.sd(x).get('q', '')):
+                args = tu.call_parts(x)[2]
+                mode = None
+                if len(args) >= 2 and args[1].get('kind') != 'CXXDefaultArgExpr':
+                    cv = tu.sd(tu.strip(args[1])).get('cv')
+                    mode = int(cv) if cv is not None else 'unknown'
+                opens.append(('ofstream', x, mode))
+            if k == 'CallExpr' and tu.sd(x).get('q') in ('fopen', 'std::fopen'):
+                m = tu.strip(tu.call_parts(x)[2][1], casts=True) if len(tu.call_parts(x)[2]) == 2 else None
+                opens.append(('fopen', x, c_string(m.get('value')) if m is not None and m.get('kind') == 'StringLiteral' else 'unknown'))
+            if k == 'CallExpr' and tu.sd(x).get('q') in ('open', 'open64', 'openat', 'creat'):
+                args = tu.call_parts(x)[2]
+                fl = args[1] if tu.sd(x).get('q') in ('open', 'open64') and len(args) >= 2 else (args[2] if tu.sd(x).get('q') == 'openat' and len(args) >= 3 else None)
+                cv = tu.sd(tu.strip(fl)).get('cv') if fl is not None else None
+                if cv is None and fl is not None:
+                    pv = Evaluator(tu).ev(fl)
+                    cv = pv.const_value() if pv is not None else None
+                opens.append(('open', x, int(cv) if cv is not None else ('creat' if tu.sd(x).get('q') == 'creat' else 'unknown')))
+    if not opens:
+        ctx.undecided(R, inst, 'no construct that opens the log file was recognised', tu.fn_loc(f))
+        return
+    good = True
+    for kind, x, mode in opens:
+        if mode == 'unknown':
+            ctx.undecided(R, inst, 'the open mode of `%s` is not a constant' % tu.show(x) if x.get('kind') != 'VarDecl' else
+                          'the open mode of `%s` is not a constant' % x.get('name'), tu.fn_loc(f))
+            good = False
+            continue
+        bad = None
+        if kind == 'ofstream' and mode is not None:
+            APP, ATE, IN, TRUNC = 1, 2, 8, 32          # libstdc++ std::ios_base::openmode bits
+            if mode & APP:
+                bad = 'std::ios::app: new logs are appended to the old contents'
+            elif (mode & IN) and not (mode & TRUNC):
+                bad = 'in | out without trunc: the old contents are kept and overwritten from the start'
+        elif kind == 'fopen' and not str(mode).startswith('w'):
+            bad = 'fopen mode %r does not truncate the file' % mode
+        elif kind == 'open':
+            O_WRONLY, O_RDWR, O_CREAT, O_TRUNC, O_APPEND = 1, 2, 0o100, 0o1000, 0o2000
+            if mode != 'creat' and (mode & (O_WRONLY | O_RDWR)) and not (mode & O_TRUNC):
+                bad = 'open() flags 0%o lack O_TRUNC%s: bytes of an older, longer log remain after the new one' % (
+                    mode, ' (and have O_APPEND)' if mode & O_APPEND else '')
+        if bad:
+            ctx.violation(R, inst, 'the log file is opened with %s; the file then holds the new log followed by the rest of the old '
+                          'one and is no longer a JSON array' % bad, tu.loc(x) if tu.sd(x) else tu.fn_loc(f), key=key + 'log-not-truncated')
+            good = False
+    if good:
+        ctx.ok(R, inst, '%d open(s) of the log file, all truncating' % len(opens), tu.fn_loc(f))
+
+
 def check_value_fidelity(ctx, tu):
     """R-C20-6: the 64-bit counter value of an event reaches the log through an integer insertion; a conversion to a
     floating type on the way loses digits (ostream prints 6 significant digits)"""
@@ -3018,6 +3250,8 @@ def run(ctx):
     check_value_fidelity(ctx, tt)
     check_cached_names(ctx, tt)
     check_utilization_divisor(ctx, tt)
+    check_lock_reentry(ctx, tt)
+    check_log_file_open(ctx, tt)
     if ctx.tier == 'thorough':
         tu2, tt2 = ctx.front.parse_many([dict(unit='drivers/c20_writers.cpp', config='DEBUG', std='gnu++17', simd=False),
                                          dict(unit='rkcommon/tracing/Tracing.cpp', config='DEBUG', std='gnu++17')])
@@ -3027,5 +3261,7 @@ def run(ctx):
         check_value_fidelity(ctx, tt2)
         check_cached_names(ctx, tt2)
         check_utilization_divisor(ctx, tt2)
+        check_lock_reentry(ctx, tt2)
+        check_log_file_open(ctx, tt2)
     from rkstatic import selftest
     selftest.run(ctx)
